@@ -19,7 +19,7 @@ PROP = "C20"
 LEVEL = "model_checking"
 RULE = ("document sets (values from a two-letter pool) x every query of <=K attribute/value pairs of one kind (values "
         "present or absent) + multi-kind queries x {string, dictionary} parameters x {match, fuzzy}; every reported "
-        "combination compared with a reference evaluation; non-trivial = at least one combination has a hit")
+        "combination compared with a reference evaluation; non-trivial = a reported combination with at least one matching object")
 WATCHDOG_S = 120
 
 NS = "https://g-node.org/odml-rdf#"
@@ -389,7 +389,7 @@ def run_case(case):
                 fail("search-raises", "fuzzy", style, pairs, "%s: %s" % (type(exc).__name__, str(exc)[:160]))
                 continue
             judge(pairs, text, "fuzzy", style)
-    return {"failures": fails, "outcomes": ["searched"], "nontrivial": int(hits > 0), "execs": max(execs, 1),
+    return {"failures": fails, "outcomes": ["searched"], "nontrivial": hits, "execs": max(execs, 1),
             "states": len(case["queries"]) + len(case["fuzzy"])}
 
 
